@@ -4,18 +4,348 @@
 import YalafiVerif.Spec.Scanner
 namespace Yalafi
 
+/-! ### helper lemmas (in their own namespace to avoid clashes with other proof files) -/
+namespace ScannerAux
+
+theorem startsWith_spec : ∀ (s p : Str), startsWith s p = true →
+    p.length ≤ s.length ∧ s.take p.length = p := by
+  intro s p
+  induction p generalizing s with
+  | nil => intro _; simp
+  | cons a p ih =>
+    cases s with
+    | nil => simp [startsWith]
+    | cons c cs =>
+      intro h
+      simp only [startsWith, Bool.and_eq_true, beq_iff_eq] at h
+      obtain ⟨h1, h2⟩ := h
+      have := ih cs h2
+      simp [h1, this]
+
+theorem findSub_spec (p : Str) : ∀ (s : Str) (e : Nat), findSub p s = some e →
+    e + p.length ≤ s.length ∧ (s.drop e).take p.length = p := by
+  intro s
+  induction s with
+  | nil =>
+    intro e h
+    simp only [findSub] at h
+    split at h
+    · rename_i hp
+      simp at hp h; subst hp; subst h; simp
+    · simp at h
+  | cons c cs ih =>
+    intro e h
+    simp only [findSub] at h
+    split at h
+    · rename_i hs
+      have := startsWith_spec _ _ hs
+      simp at h; subst h; simpa using this
+    · cases hf : findSub p cs with
+      | none => simp [hf] at h
+      | some e' =>
+        simp [hf] at h; subst h
+        obtain ⟨h1, h2⟩ := ih e' hf
+        refine ⟨by simp; omega, ?_⟩
+        simpa using h2
+
+theorem idxOf_le (f : Char → Bool) (s : Str) : idxOf f s ≤ s.length := by
+  induction s with
+  | nil => simp [idxOf]
+  | cons c cs ih => simp only [idxOf]; split <;> simp <;> omega
+
+
+structure Good (start : Nat) (rest : Str) (s : ScanStep) : Prop where
+  len_pos : 1 ≤ s.len
+  len_le : s.len ≤ rest.length
+  ok : s.diag = none → s.tok.fix = false ∧ start ≤ s.tok.pos ∧ s.tok.pos < start + s.len ∧
+        s.tok.pos + s.tok.txt.length ≤ start + s.len ∧
+        (rest.drop (s.tok.pos - start)).take s.tok.txt.length = s.tok.txt
+  err : s.diag ≠ none → s.tok.fix = true ∧ s.tok.pos = start ∧ s.tok.kind = .text
+
+theorem good_prefix (start : Nat) (rest : Str) (kind : Kind) (k : Nat) (h1 : 1 ≤ k)
+    (hk : k ≤ rest.length) :
+    Good start rest { tok := { kind := kind, pos := start, txt := rest.take k }, len := k } := by
+  constructor <;> simp <;> omega
+
+theorem good_prefix' (start : Nat) (rest : Str) (kind : Kind) (t : Str) (h1 : 1 ≤ t.length)
+    (hk : t.length ≤ rest.length) (ht : rest.take t.length = t) :
+    Good start rest { tok := { kind := kind, pos := start, txt := t }, len := t.length } := by
+  constructor <;> simp <;> first | omega | exact ⟨by omega, ht⟩
+
+theorem good_err (T : Tables) (e : Str) (src : Str) (start : Nat) (rest : Str) (k : Nat) (h1 : 1 ≤ k)
+    (hk : k ≤ rest.length) :
+    Good start rest { tok := (latexErrorToks T e start src.length).headD default,
+                      len := k, diag := some (latexErrorDiag e start src) } := by
+  constructor
+  · exact h1
+  · exact hk
+  · simp
+  · intro _
+    simp only [latexErrorToks]
+    split <;> simp
+
+theorem length_takeWhile_le' (p : Char → Bool) (l : Str) : (l.takeWhile p).length ≤ l.length :=
+  (List.takeWhile_sublist p).length_le
+
+theorem take_length_takeWhile (p : Char → Bool) (l : Str) :
+    l.take (l.takeWhile p).length = l.takeWhile p := by
+  induction l with
+  | nil => simp
+  | cons a l ih =>
+    simp only [List.takeWhile_cons]
+    split <;> simp [ih]
+
+theorem scanSpace_good (start : Nat) (c : Char) (cs : Str) (hc : isSpace c = true) :
+    Good start (c :: cs) (scanSpace start (c :: cs)) := by
+  unfold scanSpace
+  apply good_prefix'
+  · simp [hc]
+  · exact length_takeWhile_le' _ _
+  · exact take_length_takeWhile _ _
+
+theorem commentLen_bounds (c : Char) (cs : Str) :
+    1 ≤ commentLen (c :: cs) ∧ commentLen (c :: cs) ≤ (c :: cs).length := by
+  unfold commentLen
+  have h1 : (cs.takeWhile (· != nl)).length ≤ cs.length := length_takeWhile_le' _ _
+  simp only [List.tail_cons, List.length_cons]
+  split
+  · omega
+  · rename_i x more heq
+    split
+    · omega
+    · have h2 : (more.takeWhile isSpace).length ≤ more.length := length_takeWhile_le' _ _
+      have := congrArg List.length heq
+      simp at this
+      omega
+
+theorem scanComment_good (start : Nat) (c : Char) (cs : Str) :
+    Good start (c :: cs) (scanComment start (c :: cs)) := by
+  unfold scanComment
+  have := commentLen_bounds c cs
+  exact good_prefix _ _ _ _ this.1 this.2
+
+theorem scanArgToken_good (T : Tables) (start : Nat) (c : Char) (cs : Str) :
+    Good start (c :: cs) (scanArgToken T start (c :: cs)) := by
+  unfold scanArgToken
+  split
+  · apply good_prefix <;> simp
+  · rename_i d hd
+    have : 2 ≤ (c :: cs).length := by
+      cases cs <;> simp at hd ⊢
+    split
+    · apply good_prefix <;> simp
+    · apply good_prefix
+      · simp
+      · exact this
+
+
+theorem scanVerb_good (T : Tables) (src : Str) (start : Nat) (rest : Str) (h5 : 5 ≤ rest.length) :
+    Good start rest (scanVerb T src start rest) := by
+  unfold scanVerb
+  simp only []
+  split
+  · exact good_err _ _ _ _ _ _ (by omega) h5
+  · rename_i delim body heq
+    have hl : rest.length = 6 + body.length := by
+      have := congrArg List.length heq; simp at this; omega
+    have hb : rest.drop 6 = body := by
+      have := congrArg (List.drop 1) heq
+      simpa [List.drop_drop] using this
+    have hj := idxOf_le (fun c => c == delim || c == nl) body
+    split
+    · rename_i hd
+      have := congrArg List.length hd; simp at this
+      exact good_err _ _ _ _ _ _ (by omega) (by omega)
+    · rename_i c more hd
+      have := congrArg List.length hd; simp at this
+      split
+      · exact good_err _ _ _ _ _ _ (by omega) (by omega)
+      · constructor
+        · simp
+        · simp; omega
+        · intro _
+          simp [hb]
+          omega
+        · simp
+
+theorem sBegin_length : sBegin.length = 6 := by decide
+theorem sVerbatimArg_length : sVerbatimArg.length = 10 := by decide
+theorem sEndVerbatim_length : sEndVerbatim.length = 14 := by decide
+
+theorem scanVerbatim_good (T : Tables) (src : Str) (start : Nat) (rest : Str)
+    (h6 : rest.take 6 = sBegin) :
+    Good start rest (scanVerbatim T src start rest) := by
+  have hl : 6 ≤ rest.length := by
+    have := congrArg List.length h6
+    rw [sBegin_length] at this; simp at this; omega
+  unfold scanVerbatim
+  simp only []
+  split
+  · have := good_prefix' start rest .xbegin sBegin (by rw [sBegin_length]; omega)
+      (by rw [sBegin_length]; exact hl) (by rw [sBegin_length]; exact h6)
+    rw [sBegin_length] at this
+    exact this
+  · rename_i hc
+    simp only [Bool.or_eq_true, not_or, Bool.not_eq_true, decide_eq_true_eq,
+      Bool.not_eq_eq_eq_not, Bool.not_true, Bool.not_eq_false] at hc
+    split
+    · exact good_err _ _ _ _ _ _ (by omega) hl
+    · rename_i e he
+      obtain ⟨h1, h2⟩ := findSub_spec _ _ _ he
+      obtain ⟨h3, _⟩ := startsWith_spec _ _ hc.2
+      rw [sEndVerbatim_length] at h1
+      rw [sVerbatimArg_length] at h3
+      simp only [List.length_drop] at h1 h3
+      constructor
+      · simp
+      · simp; omega
+      · intro _
+        simp
+        omega
+      · simp
+
+theorem sVerb_length : sVerb.length = 5 := by decide
+
+theorem macroLen_bounds (c : Char) (cs : Str) :
+    1 ≤ macroLen (c :: cs) ∧ macroLen (c :: cs) ≤ (c :: cs).length := by
+  unfold macroLen
+  have h1 : (cs.takeWhile macroChar).length ≤ cs.length := length_takeWhile_le' _ _
+  show (1 ≤ if _ then 2 else _) ∧ (if _ then 2 else _) ≤ _
+  split
+  · rename_i h; simp at h ⊢; omega
+  · simp; rw [Nat.add_comm]; exact Nat.succ_le_succ h1
+
+theorem scanMacro_good (T : Tables) (src : Str) (start : Nat) (c : Char) (cs : Str) :
+    Good start (c :: cs) (scanMacro T src start (c :: cs)) := by
+  obtain ⟨h1, h2⟩ := macroLen_bounds c cs
+  unfold scanMacro
+  simp only []
+  split
+  · rename_i hb
+    simp only [beq_iff_eq] at hb
+    have hk : macroLen (c :: cs) = 6 := by
+      have := congrArg List.length hb
+      rw [sBegin_length, List.length_take] at this
+      omega
+    rw [hk] at hb
+    exact scanVerbatim_good _ _ _ _ hb
+  · split
+    · exact good_prefix _ _ _ _ h1 h2
+    · split
+      · exact good_prefix _ _ _ _ h1 h2
+      · split
+        · rename_i hb
+          simp only [beq_iff_eq] at hb
+          have := congrArg List.length hb
+          rw [sVerb_length, List.length_take] at this
+          exact scanVerb_good _ _ _ _ (by omega)
+        · split
+          · exact good_prefix _ _ _ _ h1 h2
+          · exact good_prefix _ _ _ _ h1 h2
+
+theorem good_special (T : Tables) (h : T.WFScan) (start : Nat) (rest t : Str)
+    (hm : matchSpecial T rest = some t) :
+    Good start rest { tok := { kind := .special, pos := start, txt := t }, len := t.length } := by
+  unfold matchSpecial at hm
+  have hmem := List.mem_of_find?_eq_some hm
+  have hp := List.find?_some hm
+  have hne := h.special_nonempty t hmem
+  obtain ⟨h1, h2⟩ := startsWith_spec _ _ hp
+  refine good_prefix' _ _ _ _ ?_ h1 h2
+  cases t with
+  | nil => exact absurd rfl hne
+  | cons => simp
+
+theorem good_text (start : Nat) (c : Char) (cs : Str) :
+    Good start (c :: cs) { tok := { kind := .text, pos := start, txt := [c] }, len := 1 } := by
+  have := good_prefix start (c :: cs) .text 1 (by omega) (by simp)
+  simpa using this
+
+theorem nextToken_good (T : Tables) (h : T.WFScan) (src : Str) (start : Nat) (rest : Str)
+    (hr : rest ≠ []) : Good start rest (nextToken T src start rest) := by
+  unfold nextToken
+  split
+  · exact absurd rfl hr
+  · rename_i c cs
+    split
+    · rename_i hc; exact scanSpace_good _ _ _ hc
+    · split
+      · exact scanComment_good _ _ _
+      · split
+        · exact scanArgToken_good _ _ _ _
+        · split
+          · rename_i t ht; exact good_special T h _ _ _ ht
+          · split
+            · exact scanMacro_good _ _ _ _ _
+            · exact good_text _ _ _
+
+theorem scanSteps_spec (T : Tables) (h : T.WFScan) (src : Str) :
+    ∀ (fuel pos : Nat) (rest : Str), rest.length ≤ fuel →
+    (scanSteps T src fuel pos rest).2 = true ∧
+    ((scanSteps T src fuel pos rest).1.map (·.len)).sum = rest.length ∧
+    ∀ s ∈ (scanSteps T src fuel pos rest).1, ∃ (p : Nat) (r pre : Str), r ≠ [] ∧
+      rest = pre ++ r ∧ p = pos + pre.length ∧ s = nextToken T src p r := by
+  intro fuel
+  induction fuel with
+  | zero =>
+    intro pos rest hf
+    cases rest with
+    | nil => simp [scanSteps]
+    | cons c cs => simp at hf
+  | succ fuel ih =>
+    intro pos rest hf
+    cases rest with
+    | nil => simp [scanSteps]
+    | cons c cs =>
+      have hg := nextToken_good T h src pos (c :: cs) (by simp)
+      have h1 := hg.len_pos
+      have h2 := hg.len_le
+      simp only [scanSteps]
+      rw [if_neg (by simp; omega)]
+      have hl : ((c :: cs).drop (nextToken T src pos (c :: cs)).len).length ≤ fuel := by
+        simp only [List.length_drop]; simp only [List.length_cons] at hf h2 ⊢; omega
+      obtain ⟨i1, i2, i3⟩ := ih (pos + (nextToken T src pos (c :: cs)).len)
+        ((c :: cs).drop (nextToken T src pos (c :: cs)).len) hl
+      refine ⟨i1, ?_, ?_⟩
+      · simp only [List.map_cons, List.sum_cons, i2, List.length_drop]; omega
+      · intro s hs
+        simp only [List.mem_cons] at hs
+        rcases hs with rfl | hs
+        · exact ⟨pos, c :: cs, [], by simp, by simp, by simp, rfl⟩
+        · obtain ⟨p, r, pre, hr, he, hp, hs⟩ := i3 s hs
+          refine ⟨p, r, (c :: cs).take (nextToken T src pos (c :: cs)).len ++ pre, hr, ?_, ?_, hs⟩
+          · rw [List.append_assoc, ← he, List.take_append_drop]
+          · rw [List.length_append, List.length_take, Nat.min_eq_left h2]; omega
+
+theorem scan_steps (T : Tables) (h : T.WFScan) (src : Str) :
+    ∀ t ∈ (scan T src).toks, ∃ (p : Nat) (r : Str), r ≠ [] ∧ src.drop p = r ∧
+      p + r.length = src.length ∧ t = (nextToken T src p r).tok := by
+  intro t ht
+  simp only [scan, List.mem_map] at ht
+  obtain ⟨s, hs, rfl⟩ := ht
+  obtain ⟨p, r, pre, hr, he, hp, rfl⟩ := (scanSteps_spec T h src src.length 0 src (Nat.le_refl _)).2.2 s hs
+  refine ⟨p, r, hr, ?_, ?_, rfl⟩
+  · have : p = pre.length := by omega
+    rw [he, this]; simp
+  · rw [he, List.length_append]; omega
+
+end ScannerAux
+open ScannerAux
+
+/-! ### the stated lemmas -/
+
 /-- every sub-scanner consumes at least one character and never more than is there -/
 theorem nextToken_len (T : Tables) (h : T.WFScan) (src : Str) (start : Nat) (rest : Str)
     (hr : rest ≠ []) :
-    1 ≤ (nextToken T src start rest).len ∧ (nextToken T src start rest).len ≤ rest.length := by
-  sorry
+    1 ≤ (nextToken T src start rest).len ∧ (nextToken T src start rest).len ≤ rest.length :=
+  ⟨(nextToken_good T h src start rest hr).len_pos, (nextToken_good T h src start rest hr).len_le⟩
 
 /-- the fuel `src.length` always suffices: the scanner terminates having consumed everything -/
 theorem scanSteps_complete (T : Tables) (h : T.WFScan) (src : Str) (fuel pos : Nat) (rest : Str)
     (hf : rest.length ≤ fuel) :
     (scanSteps T src fuel pos rest).2 = true ∧
-    ((scanSteps T src fuel pos rest).1.map (·.len)).sum = rest.length := by
-  sorry
+    ((scanSteps T src fuel pos rest).1.map (·.len)).sum = rest.length :=
+  ⟨(scanSteps_spec T h src fuel pos rest hf).1, (scanSteps_spec T h src fuel pos rest hf).2.1⟩
 
 /-- a non-error token is a literal slice of the source, lying inside the span the step consumed -/
 theorem nextToken_slice (T : Tables) (h : T.WFScan) (src : Str) (start : Nat) (rest : Str)
@@ -23,14 +353,52 @@ theorem nextToken_slice (T : Tables) (h : T.WFScan) (src : Str) (start : Nat) (r
     let s := nextToken T src start rest
     s.tok.fix = false ∧ start ≤ s.tok.pos ∧ s.tok.pos + s.tok.txt.length ≤ start + s.len ∧
     (rest.drop (s.tok.pos - start)).take s.tok.txt.length = s.tok.txt := by
-  sorry
+  obtain ⟨a, b, _, c, d⟩ := (nextToken_good T h src start rest hr).ok hne
+  exact ⟨a, b, c, d⟩
 
 /-- an error token is a fixed text token at the start of the step (the first half of the mark) -/
 theorem nextToken_err (T : Tables) (src : Str) (start : Nat) (rest : Str)
     (hr : rest ≠ []) (he : (nextToken T src start rest).diag ≠ none) :
     let s := nextToken T src start rest
     s.tok.fix = true ∧ s.tok.pos = start ∧ s.tok.kind = .text := by
-  sorry
+  intro s
+  revert he
+  show s.diag ≠ none → _
+  unfold s nextToken
+  split
+  · exact absurd rfl hr
+  · rename_i c cs
+    split
+    · rename_i hc; exact (scanSpace_good _ _ _ hc).err
+    · split
+      · exact (scanComment_good _ _ _).err
+      · split
+        · exact (scanArgToken_good _ _ _ _).err
+        · split
+          · intro h; exact absurd rfl h
+          · split
+            · exact (scanMacro_good _ _ _ _ _).err
+            · exact (good_text start c cs).err
+
+theorem scanner_find?_sorted {α} (p : α → Bool) (R : α → α → Prop) (hR : ∀ a, R a a) :
+    ∀ (l : List α) (t : α), l.Pairwise R → l.find? p = some t →
+    ∀ k ∈ l, p k = true → R t k := by
+  intro l
+  induction l with
+  | nil => intro t _ h; simp at h
+  | cons a l ih =>
+    intro t hp hf k hk hpk
+    rw [List.pairwise_cons] at hp
+    rw [List.find?_cons] at hf
+    split at hf
+    · simp only [Option.some.injEq] at hf; subst hf
+      rcases List.mem_cons.mp hk with rfl | hk
+      · exact hR _
+      · exact hp.1 k hk
+    · rename_i hpa
+      rcases List.mem_cons.mp hk with rfl | hk
+      · rw [hpk] at hpa; exact absurd hpa (by simp)
+      · exact ih t hp.2 hf k hk hpk
 
 /-- longest match: a special token returned by `next_token` is a prefix of the rest and no
     longer key of the table is a prefix there -/
@@ -38,27 +406,58 @@ theorem matchSpecial_longest (T : Tables) (h : T.WFScan) (rest : Str) (t : Str)
     (hm : matchSpecial T rest = some t) :
     startsWith rest t = true ∧ t ∈ T.special.map (·.1) ∧
     ∀ k ∈ T.special.map (·.1), startsWith rest k = true → k.length ≤ t.length := by
-  sorry
+  unfold matchSpecial at hm
+  refine ⟨List.find?_some hm, (h.keys t).mp (List.mem_of_find?_eq_some hm), ?_⟩
+  intro k hk hs
+  exact scanner_find?_sorted (fun t => startsWith rest t) (fun a b => b.length ≤ a.length)
+    (fun _ => Nat.le_refl _) _ t h.sorted hm k ((h.keys k).mpr hk) hs
 
 theorem matchSpecial_none (T : Tables) (h : T.WFScan) (rest : Str)
     (hm : matchSpecial T rest = none) :
     ∀ k ∈ T.special.map (·.1), startsWith rest k = false := by
-  sorry
+  unfold matchSpecial at hm
+  intro k hk
+  have := List.find?_eq_none.mp hm k ((h.keys k).mpr hk)
+  simpa using this
 
 /-- all scanner tokens are in range (feeds C01) -/
 theorem scan_inRange (T : Tables) (h : T.WFScan) (src : Str) :
     ∀ t ∈ (scan T src).toks, TokInRange src.length t := by
-  sorry
+  intro t ht
+  obtain ⟨p, r, hr, hd, hl, rfl⟩ := scan_steps T h src t ht
+  have hg := nextToken_good T h src p r hr
+  have h2 := hg.len_le
+  have hrl : 1 ≤ r.length := by
+    cases r with
+    | nil => exact absurd rfl hr
+    | cons => simp
+  unfold TokInRange
+  by_cases hdg : (nextToken T src p r).diag = none
+  · obtain ⟨a, b, c, d, _⟩ := hg.ok hdg
+    exact ⟨by omega, fun _ => by omega⟩
+  · obtain ⟨a, b, _⟩ := hg.err hdg
+    refine ⟨by omega, fun hf => ?_⟩
+    rw [a] at hf; exact absurd hf (by simp)
 
 /-- tokens of the scan are literal slices of the source at their own offset (C02) -/
 theorem scan_slice (T : Tables) (h : T.WFScan) (src : Str) :
     ∀ t ∈ (scan T src).toks, t.fix = false →
       (src.drop t.pos).take t.txt.length = t.txt := by
-  sorry
+  intro t ht hfix
+  obtain ⟨p, r, hr, hd, hl, rfl⟩ := scan_steps T h src t ht
+  have hg := nextToken_good T h src p r hr
+  by_cases hdg : (nextToken T src p r).diag = none
+  · obtain ⟨a, b, c, d, e⟩ := hg.ok hdg
+    have key : ∀ q, p ≤ q → src.drop q = r.drop (q - p) := by
+      intro q hq
+      rw [← hd, List.drop_drop]; congr 1; omega
+    rw [key _ b]; exact e
+  · obtain ⟨a, _⟩ := hg.err hdg
+    rw [a] at hfix; exact absurd hfix (by simp)
 
 /-- white space with at least two line breaks is a paragraph token, otherwise a space token (C05) -/
 theorem scanSpace_kind (start : Nat) (rest : Str) :
     (scanSpace start rest).tok.kind = (if countNl (rest.takeWhile isSpace) < 2 then Kind.space else Kind.par) := by
-  sorry
+  rfl
 
 end Yalafi
